@@ -341,9 +341,10 @@ def run_property(prop, tier, seed, args):
 
 def replay_path(prop, obligation):
     safe = obligation.replace("::", "-").replace("/", "_").replace(":", "_").replace("[", "_").replace("]", "_")
-    d = os.path.join(ROOT, "replays")
+    base = os.environ.get("PYVC_EVIDENCE_DIR")  # trial runs (seeded changes) write beside their scratch evidence
+    d = os.path.join(base, "replays") if base else os.path.join(ROOT, "replays")
     os.makedirs(d, exist_ok=True)
-    return os.path.join("replays", f"{prop}-{safe}.json")
+    return os.path.join(d if base else "replays", f"{prop}-{safe}.json")
 
 
 def matches_known(k, obligation, case):
